@@ -69,7 +69,8 @@ def parseLeaf (j : Json) : Option (Op C) := do
       | "rc" => Op.wrapRC re A
       | _ => A)
   | "scat" =>
-    -- one scatter term of the 2-D projector: raw (possibly negative) indices, `fixIdx` as the code does
+    -- one scatter term of the 2-D projector: raw (possibly negative) indices; the bin offset is added FIRST, then
+    -- `fixIdx` (per bin, repo e359064); `exact` = fill-0 gather (the code), otherwise the clamped gather of the pinned tree
     let np ← fNat? j "np"
     let ny ← fNat? j "ny"
     let idx := (← fInts? j "I").toArray
@@ -77,13 +78,13 @@ def parseLeaf (j : Json) : Option (Op C) := do
     let wa := carr (← fFloats? j "w") ((← fFloats? j "w").map (fun _ => 0.0))
     let w := vecOf wa
     let I : Nat → Nat := fun p => match idx[p]? with
-      | some v => fixIdx ny v + off.toNat
+      | some v => fixIdx ny (v + off)
       | none => ny
     let exact ← fBool? j "exact"
     some (if exact then Op.scatFill np ny I w else Op.scatClamp np ny I w)
   | "scat2" =>
-    -- one scatter term of the 3-D projector on a (d0,d1) detector: negative corner indices are replaced by
-    -- max(d0,d1) (`jnp.where(ul_ind < 0, max(output_shape), ul_ind)`), then the offsets (da,db) are added
+    -- one scatter term of the 3-D projector on a (d0,d1) detector: the offsets (da,db) are added to the raw corner
+    -- indices, then negative values are replaced by max(d0,d1) (`off(i)`, per bin, repo e359064)
     let np ← fNat? j "np"
     let d0 ← fNat? j "d0"
     let d1 ← fNat? j "d1"
@@ -95,19 +96,23 @@ def parseLeaf (j : Json) : Option (Op C) := do
     let wa := carr (← fFloats? j "w") ((← fFloats? j "w").map (fun _ => 0.0))
     let w := vecOf wa
     let fa : Nat → Nat := fun p => match ia[p]? with
-      | some v => fixIdx big v + da
+      | some v => fixIdx big (v + (da : Int))
       | none => big
     let fb : Nat → Nat := fun p => match ib[p]? with
-      | some v => fixIdx big v + db
+      | some v => fixIdx big (v + (db : Int))
       | none => big
     let exact ← fBool? j "exact"
     let ev := scatterAddDrop np (d0 * d1) (fun p => flat2 d0 d1 (fa p) (fb p)) w
     -- slab loop of the code (`MAX_SLICE_LEN`): `B` voxels per slab
     match fNat? j "B", fNat? j "nslab" with
     | some B, some nslab =>
-      return (if (fBool? j "nooffset").getD false then
-          Op.scatSlabNoOffset B nslab np (d0 * d1) (fun p => flat2 d0 d1 (fa p) (fb p)) (fun p => clamp2 d0 d1 (fa p) (fb p)) w
-        else Op.scatSlab B nslab np (d0 * d1) (fun p => flat2 d0 d1 (fa p) (fb p)) (fun p => clamp2 d0 d1 (fa p) (fb p)) w)
+      let If : Nat → Nat := fun p => flat2 d0 d1 (fa p) (fb p)
+      let Jc : Nat → Nat := fun p => clamp2 d0 d1 (fa p) (fb p)
+      let nooff := (fBool? j "nooffset").getD false
+      return (if exact then
+          (if nooff then Op.scatSlabFillNoOffset B nslab np (d0 * d1) If w else Op.scatSlabFill B nslab np (d0 * d1) If w)
+        else
+          (if nooff then Op.scatSlabNoOffset B nslab np (d0 * d1) If Jc w else Op.scatSlab B nslab np (d0 * d1) If Jc w))
     | _, _ => pure ()
     some (if exact then
         ({ nin := np, nout := d0 * d1, eval := ev,
